@@ -49,9 +49,21 @@ SPEC = {
     "harnesses": [
         {"name": "c08_base", "path": MOD, "tiers": Q, "role": "base case", "functions": ["FinalityTracker::default"], "bounds": "none", "covers": 1},
         _certs(3, 2, 1, Q), _certs(2, 3, 1, T), _certs(3, 3, 2, T),
-        {"name": "c08_pool_window", "path": "consensus::pool::kani_c08_pool", "tiers": Q, "role": "pool acceptance window", "build": POOL_BUILD, "covers": 4,
+        {"name": "c08_pool_window_ahead", "path": "consensus::pool::kani_c08_pool", "tiers": Q, "role": "pool acceptance window", "build": POOL_BUILD, "covers": 3,
          "stubs": [PC.SIGN_STUB, "log::max_level", "consensus::pool::PoolImpl::add_valid_cert"], "timeout": {"quick": 900, "thorough": 1800}, "mem_gb": 14,
          "functions": ["PoolImpl::add_cert (up to the hand-over to add_valid_cert)", "PoolImpl::{prune,first_unpruned_slot,finalized_slot,slot_state}", "FinalityTracker::{mark_fast_finalized,mark_finalized,mark_notarized,first_unpruned_slot,highest_finalized_slot}", "SlotState::add_cert", "ParentReadyTracker::prune"],
-         "bounds": "fresh pool, 2 validators; slot 1 holds any subset of {notarization, finalization} certificates, slot 2 possibly a fast-finalization certificate (told to the real tracker, then prune); one new certificate of kind notarization | skip | finalization for a slot ranging over all of u64; add_valid_cert cut by a recording stub; pool.rs compiled without its async plumbing (see pool_common.py)"},
+         "bounds": "fresh pool, 2 validators; slot 2 fast-finalized while slot 1 holds nothing (told to the real tracker, then prune); one new certificate (kind fixed per harness: notarization / finalization / skip / notarization) for a slot ranging over all of u64; add_valid_cert cut by a recording stub; pool.rs compiled without its async plumbing (see pool_common.py)"},
+        {"name": "c08_pool_window_notar_ahead", "path": "consensus::pool::kani_c08_pool", "tiers": T, "role": "pool acceptance window", "build": POOL_BUILD, "covers": 3,
+         "stubs": [PC.SIGN_STUB, "log::max_level", "consensus::pool::PoolImpl::add_valid_cert"], "timeout": {"quick": 900, "thorough": 1800}, "mem_gb": 14,
+         "functions": ["PoolImpl::add_cert (up to the hand-over to add_valid_cert)", "PoolImpl::{prune,first_unpruned_slot,finalized_slot,slot_state}", "FinalityTracker::{mark_fast_finalized,mark_finalized,mark_notarized,first_unpruned_slot,highest_finalized_slot}", "SlotState::add_cert", "ParentReadyTracker::prune"],
+         "bounds": "fresh pool, 2 validators; slot 2 fast-finalized while slot 1 holds a notarization certificate only (told to the real tracker, then prune); one new certificate (kind fixed per harness: notarization / finalization / skip / notarization) for a slot ranging over all of u64; add_valid_cert cut by a recording stub; pool.rs compiled without its async plumbing (see pool_common.py)"},
+        {"name": "c08_pool_window_decided", "path": "consensus::pool::kani_c08_pool", "tiers": Q, "role": "pool acceptance window", "build": POOL_BUILD, "covers": 3,
+         "stubs": [PC.SIGN_STUB, "log::max_level", "consensus::pool::PoolImpl::add_valid_cert"], "timeout": {"quick": 900, "thorough": 1800}, "mem_gb": 14,
+         "functions": ["PoolImpl::add_cert (up to the hand-over to add_valid_cert)", "PoolImpl::{prune,first_unpruned_slot,finalized_slot,slot_state}", "FinalityTracker::{mark_fast_finalized,mark_finalized,mark_notarized,first_unpruned_slot,highest_finalized_slot}", "SlotState::add_cert", "ParentReadyTracker::prune"],
+         "bounds": "fresh pool, 2 validators; slot 1 notarized + finalized and slot 2 fast-finalized (told to the real tracker, then prune); one new certificate (kind fixed per harness: notarization / finalization / skip / notarization) for a slot ranging over all of u64; add_valid_cert cut by a recording stub; pool.rs compiled without its async plumbing (see pool_common.py)"},
+        {"name": "c08_pool_window_one", "path": "consensus::pool::kani_c08_pool", "tiers": T, "role": "pool acceptance window", "build": POOL_BUILD, "covers": 3,
+         "stubs": [PC.SIGN_STUB, "log::max_level", "consensus::pool::PoolImpl::add_valid_cert"], "timeout": {"quick": 900, "thorough": 1800}, "mem_gb": 14,
+         "functions": ["PoolImpl::add_cert (up to the hand-over to add_valid_cert)", "PoolImpl::{prune,first_unpruned_slot,finalized_slot,slot_state}", "FinalityTracker::{mark_fast_finalized,mark_finalized,mark_notarized,first_unpruned_slot,highest_finalized_slot}", "SlotState::add_cert", "ParentReadyTracker::prune"],
+         "bounds": "fresh pool, 2 validators; slot 1 notarized + finalized, slot 2 open (told to the real tracker, then prune); one new certificate (kind fixed per harness: notarization / finalization / skip / notarization) for a slot ranging over all of u64; add_valid_cert cut by a recording stub; pool.rs compiled without its async plumbing (see pool_common.py)"},
     ],
 }
